@@ -16,7 +16,7 @@ Tag == IF alive /\ ~alive' THEN "C"
 
 GInit == Init /\ hist = <<>>
 GNext == /\ ncrash < NC \/ alive
-         /\ \/ Main \/ Resolver \/ RAnchor(FALSE) \/ Env \/ Restart \/ RCWipe
+         /\ \/ Main \/ Resolver \/ RAnchor(FALSE, TRUE) \/ Env \/ Restart \/ RCWipe
             \/ (Crash /\ RandomElement(1..CrashOdds) = 1)
          /\ hist' = Append(hist, [t |-> Tag, sc |-> scen])
 GSpec == GInit /\ [][GNext]_<<vars, hist>>
